@@ -99,7 +99,7 @@ def pad_noop_statement : Prop :=
 theorem pad_noop_counterexample : ¬ pad_noop_statement := by
   intro h
   have := h cexClose (exec env cexClose (env.reset cexClose) [0, 1, 2]) 0
-    ⟨by decide, by decide, by decide, by decide, by decide⟩
+    ⟨by decide, by decide, by decide, by decide, by decide, by decide⟩
     ⟨[0, 1, 2], (run_iff_admitted _ _ _ _ _).2 ⟨by decide, rfl⟩⟩ (by decide) (by decide) (by decide)
   revert this; decide
 
